@@ -46,7 +46,15 @@ func frameRegion(pos int) string {
 	return "payload"
 }
 
-func c05Class(row *wireRow) string {
+// negativeAddrCount: the stream is an "addr" frame whose 8-byte count has the top bit set (int(count) < 0)
+func negativeAddrCount(stream []byte) bool {
+	return len(stream) >= 32 && bytes.Equal(bytes.TrimRight(stream[4:16], "\x00"), []byte("addr")) && stream[31] >= 0x80
+}
+
+func c05Class(row *wireRow, stream []byte) string {
+	if negativeAddrCount(stream) {
+		return "addr-count-negative"
+	}
 	msg := row.Sc
 	if msg == "txmsg" {
 		msg = "tx"
@@ -56,8 +64,6 @@ func c05Class(row *wireRow) string {
 	switch {
 	case row.Kd == "cnt:vu:alloc" && hugeAlt(row.An):
 		return msg + "-sigcount-huge"
-	case row.Sc == "addr" && row.Kd == "cnt:u64" && (row.An == "2^63" || row.An == "2^64-1"):
-		return "addr-count-negative"
 	case row.Op == "byte":
 		return "byte-" + frameRegion(row.I)
 	case row.Kd != "":
@@ -135,7 +141,7 @@ func runC05() {
 		}
 		o := readFrame(stream)
 		if o.panicked != "" {
-			st.violation("p2p-frame-panic:"+c05Class(row), row, ln, map[string]interface{}{"panic": o.panicked, "stream": short(stream)})
+			st.violation("p2p-frame-panic:"+c05Class(row, stream), row, ln, map[string]interface{}{"panic": o.panicked, "stream": short(stream)})
 			continue
 		}
 		switch must {
@@ -161,7 +167,7 @@ func runC05() {
 			}
 		case "reject":
 			if o.accepted {
-				st.violation("p2p-frame-accepted:"+c05Class(row), row, ln, map[string]interface{}{"stream": short(stream), "decoded": fmt.Sprintf("%T", o.msg)})
+				st.violation("p2p-frame-accepted:"+c05Class(row, stream), row, ln, map[string]interface{}{"stream": short(stream), "decoded": fmt.Sprintf("%T", o.msg)})
 			}
 		default:
 			if row.Exp.E == "unk" {
@@ -177,7 +183,7 @@ func runC05() {
 			}
 			if !same {
 				st.drift++
-				vio.Emit(map[string]interface{}{"drift": "p2p:" + c05Class(row), "o": row.O, "op": row.Op, "i": row.I, "a": row.A,
+				vio.Emit(map[string]interface{}{"drift": "p2p:" + c05Class(row, stream), "o": row.O, "op": row.Op, "i": row.I, "a": row.A,
 					"model": row.Exp.E, "accepted": o.accepted, "err": o.errText, "why": why})
 			}
 		}
